@@ -42,7 +42,7 @@ SharedAgree(a, b) ==   \* inputs with the same name have the same domain
   \A k \in 1..Len(a) : HasName(b, a[k][1]) => Lookup(b, a[k][1]) = a[k][2]
 
 WellTyped(t) ==
-  CASE t.c \in {"Var", "Num", "Ten"} -> TRUE
+  CASE t.c \in {"Var", "Num", "Ten", "Gauss"} -> TRUE
     [] t.c = "Slice" -> t.step > 0 /\ t.start >= 0 /\ SliceSize(t) > 0
     [] t.c = "Un" ->
          LET d == t.arg.to IN
